@@ -393,6 +393,245 @@ def ovf_shape(text):
     return crossed, any("/disk/" in h for h in hrs), any("/file/" in h for h in hrs)
 
 
+# --------------------------------------------------------------------------- VMX: disks() -> the dictionary changes -> disks()
+#
+# A history on ONE VMX object (fmt "vmxhist"): disks() is asked, then the dictionary the object holds changes -- an in-place
+# change of `vmx.attr` (a disk added by item assignment or by update(), `deviceType` re-assigned disk <-> CD-ROM, `fileName`
+# changed or emptied, a device's keys deleted, `vmx.attr` replaced by another dict) or `unlock_with_phrase()` on an encrypted
+# VMX whose device keys are inside encryption.data (sealed by the independent writer gen_vmx) -- and disks() is asked again.
+# The expected list comes from the abstract device table the recipe carries at every step (kind "disk" and a non-empty file),
+# never from the code. The model answers disks() for a text spelling of the dictionary of every step.
+
+HIST_DISK_DT = [None, None, "scsi-hardDisk", "disk", "ata-hardDisk", "SCSI-HARDDISK", "rawDisk"]
+HIST_CD_DT = ["cdrom-image", "cdrom-raw", "atapi-cdrom", "CDROM-Image"]
+HIST_TEMPLATES = [["add"], ["retype-cd", "retype-disk"], ["rename"], ["remove"], ["noop", "add-update", "clear"], ["replace-add"],
+                  ["replace-retype-cd", "noop", "add"], ["retype-cd", "add", "rename", "remove"], ["clear", "rename"],
+                  ["add", "add-update", "retype-cd", "noop", "retype-disk", "replace-rename"], ["cd-to-disk"], ["replace-empty", "add"]]
+UNLOCK_TEMPLATES = [["good"], ["wrong", "good", "noop"], ["good", "add"], ["wrong", "wrong", "good", "retype-cd"], ["good", "good", "rename"],
+                    ["good", "remove", "noop"]]
+
+
+def _hbase(key):
+    return "%s%d:%d" % tuple(key)
+
+
+def _hist_state(vm):
+    """abstract device table of a VM: {(cls, bus, unit): [kind, file name as stored]}"""
+    st = {}
+    for d in vm["devices"]:
+        if d["cls"] == "floppy":
+            continue
+        disk = d["kind"] in G.DISK_KINDS
+        st[(d["cls"], d["bus"], d["unit"])] = ["disk" if disk else "cd", d["file"] + (".vmdk" if disk and d["file"] else "")]
+    return st
+
+
+def _hist_truth(st):
+    return sorted(f for k, f in st.values() if k == "disk" and f)
+
+
+def _hist_vm(rng):
+    """a VM with at least two hard disks and one CD-ROM image (so that every template has something to act on)"""
+    vm = G.gen_vm(rng, "quick")
+    vm = dict(vm, devices=[dict(d) for d in vm["devices"]])
+    used = {(d["cls"], d["bus"], d["unit"]) for d in vm["devices"]}
+    free = [k for k in (("scsi", 0, 0), ("sata", 0, 1), ("nvme", 0, 2), ("ide", 1, 0), ("scsi", 2, 7), ("sata", 3, 29)) if k not in used]
+    while len([d for d in vm["devices"] if d["kind"] == "disk" and d["file"]]) < 2:
+        c, b, u = free.pop(0)
+        vm["devices"].append({"cls": c, "bus": b, "unit": u, "kind": "disk", "file": rng.choice(G.DIRS) + rng.choice(G.STEMS) + "-h%d" % len(free)})
+    if not any(d["kind"] == "cdrom-image" and d["file"] for d in vm["devices"]):
+        c, b, u = free.pop(0)
+        vm["devices"].append({"cls": c, "bus": b, "unit": u, "kind": "cdrom-image", "file": "install-h.iso"})
+    return vm
+
+
+def _hist_plan(rng, st, template):
+    """abstract ops (explicit device keys, names and types) for a template, simulated on a copy of the device table `st`"""
+    st = {k: list(v) for k, v in st.items()}
+    ops, n = [], 0
+    for t in template:
+        n += 1
+        repl = t.startswith("replace-")
+        what = t[8:] if repl else t
+        disks = sorted(k for k, (kd, f) in st.items() if kd == "disk" and f)
+        cds = sorted(k for k, (kd, f) in st.items() if kd == "cd" and f)
+        op = ["noop"]
+        if what in ("add", "add-update"):
+            while True:
+                cls = rng.choice(["scsi", "scsi", "sata", "ide", "nvme"])
+                key = (cls, rng.randrange(4), rng.randrange(31))
+                if key not in st:
+                    break
+            f = rng.choice(G.DIRS) + rng.choice(G.STEMS) + "-new%d.vmdk" % n
+            op = ["add", list(key), f, rng.choice(HIST_DISK_DT), "update" if what == "add-update" else "set"]
+            st[key] = ["disk", f]
+        elif what == "retype-cd" and disks:
+            key = rng.choice(disks)
+            op = ["retype", list(key), "cd", rng.choice(HIST_CD_DT)]
+            st[key][0] = "cd"
+        elif what in ("retype-disk", "cd-to-disk") and cds:
+            key = rng.choice(cds)
+            op = ["retype", list(key), "disk", rng.choice([d for d in HIST_DISK_DT if d])]
+            st[key][0] = "disk"
+        elif what == "rename" and disks:
+            key = rng.choice(disks)
+            f = rng.choice(G.DIRS) + "renamed %d.vmdk" % n
+            op = ["rename", list(key), f]
+            st[key][1] = f
+        elif what == "clear" and disks:
+            key = rng.choice(disks)
+            op = ["rename", list(key), ""]
+            st[key][1] = ""
+        elif what == "remove" and disks:
+            key = rng.choice(disks)
+            op = ["remove", list(key)]
+            del st[key]
+        elif what == "empty":
+            op = ["empty"]
+            st.clear()
+        elif what in ("good", "wrong"):
+            op = ["unlock", what]
+        if repl:
+            op = ["replace", op]
+        ops.append(op)
+    return ops
+
+
+def _hist_apply(op, st, cur):
+    """one abstract op on the device table `st` and the expected dictionary `cur` (both changed in place) -> concrete step"""
+    o = op[0]
+    if o == "noop":
+        return ["noop"]
+    if o == "add":
+        key, f, dt, how = tuple(op[1]), op[2], op[3], op[4]
+        new = {_hbase(key) + ".present": "TRUE", _hbase(key) + ".filename": f}
+        if dt is not None:
+            new[_hbase(key) + ".devicetype"] = dt
+        st[key] = ["disk", f]
+        cur.update(new)
+        return [how, new]
+    if o == "retype":
+        key = tuple(op[1])
+        st[key][0] = op[2]
+        cur[_hbase(key) + ".devicetype"] = op[3]
+        return ["set", {_hbase(key) + ".devicetype": op[3]}]
+    if o == "rename":
+        key = tuple(op[1])
+        st[key][1] = op[2]
+        cur[_hbase(key) + ".filename"] = op[2]
+        return ["set", {_hbase(key) + ".filename": op[2]}]
+    if o == "remove":
+        key = tuple(op[1])
+        del st[key]
+        gone = [k for k in cur if k.startswith(_hbase(key) + ".")]
+        for k in gone:
+            del cur[k]
+        return ["del", gone]
+    if o == "empty":
+        st.clear()
+        keep = {k: v for k, v in cur.items() if not k.startswith(("scsi", "sata", "ide", "nvme"))}
+        cur.clear()
+        cur.update(keep)
+        return ["replace", dict(cur)]
+    if o == "replace":                                         # the change is made on a copy, the copy becomes vmx.attr
+        _hist_apply(op[1], st, cur)
+        return ["replace", dict(cur)]
+    raise ValueError(op)
+
+
+def _hist_sealed(r):
+    """encrypted variant: the VM's settings rendered as VMX text are the hidden configuration of a gen_vmx recipe; the envelope
+    has no device keys but the ones `r["envelope_dev"]` puts there -> gen_vmx built dict, envelope device table"""
+    import gen_vmx
+    text, truth, tdict = G.render_vmx(r["vm"], random.Random(r["rseed"]))
+    fr = dict(r["seal"])
+    fr["hidden"] = [{"c": ln} for ln in text.split("\n")]
+    vis = [{"k": ".encoding", "v": "UTF-8"}, {"k": "displayName", "v": r["vm"]["name"]}, {"k": "guestOS", "v": "other"}][:r["nvis"]]
+    est = {}
+    for key, f, dt in r.get("envelope_dev", []):
+        vis.append({"k": _hbase(key) + ".fileName", "v": f})
+        est[tuple(key)] = ["disk", f]
+    fr["visible"] = vis
+    fr["enc_at"] = sorted(min(a, len(vis)) for a in fr["enc_at"])
+    b = gen_vmx.build(fr)
+    assert b["hidden"] == tdict, "vmxhist: the sealed configuration does not read back as the rendered dictionary"
+    return b, est, _hist_state(r["vm"])
+
+
+def build_vmxhist(r):
+    """-> (text, [concrete steps], [expected disk list after each step], [expected dictionary after each step], branches)"""
+    br = set()
+    if r["mode"] == "unlock":
+        b, st, st_after = _hist_sealed(r)
+        text, cur = b["text"], dict(b["visible"])
+    else:
+        text, truth, tdict = G.render_vmx(r["vm"], random.Random(r["rseed"]))
+        st, cur = _hist_state(r["vm"]), dict(tdict)
+        assert _hist_truth(st) == truth
+    steps, lists, dicts = [["noop"]], [_hist_truth(st)], [dict(cur)]
+    unlocked = mutated = False
+    for op in r["ops"]:
+        if op[0] == "unlock":
+            if op[1] == "good":
+                steps.append(["unlock", b["passphrase"]])
+                assert not mutated, "vmxhist: templates unlock before they mutate"
+                if not unlocked:                                # the VM's devices join the ones the envelope describes
+                    assert not set(st) & set(st_after)
+                    st.update(st_after)
+                    unlocked = True
+                cur.update(b["hidden"])
+                br.add("hist-mutate:unlock" + ("-again" if "hist-mutate:unlock" in br else ""))
+            else:
+                steps.append(["unlock", b["passphrase"] + "?"])
+                br.add("hist-mutate:unlock-wrong")
+        else:
+            steps.append(_hist_apply(op, st, cur))
+            mutated = mutated or op[0] != "noop"
+            br.add("hist-mutate:" + (op[0] if op[0] != "replace" else "replace-" + op[1][0]) + (":" + op[4] if op[0] == "add" else ":" + op[2] if op[0] == "retype" else ""))
+        lists.append(_hist_truth(st))
+        dicts.append(dict(cur))
+    if any(a != b_ for a, b_ in zip(lists, lists[1:])):
+        br.add("hist-mutate:list-changes")
+    if lists[0] == [] and lists[-1]:
+        br.add("hist-mutate:empty-then-disks")
+    return text, steps, lists, dicts, br
+
+
+def _hist_cases(seed, tier, tag=""):
+    """directed, the same number on every run: 2 x every mutate template, 2 x every unlock template (+ envelope devices)"""
+    import gen_vmx
+    rng = random.Random(f"C18/vmxhist/{tag}/{seed}/{tier}")
+    cases = []
+    reps = 2 if tier == "quick" else 12
+    for i in range(reps * len(HIST_TEMPLATES)):
+        vm = _hist_vm(rng)
+        r = {"fmt": "vmxhist", "mode": "mutate", "vm": vm, "rseed": rng.getrandbits(32), "variant": None}
+        r["ops"] = _hist_plan(rng, _hist_state(vm), HIST_TEMPLATES[i % len(HIST_TEMPLATES)])
+        cases.append({"id": f"{tag}vmxhist-m{i}", "recipe": r, "queries": ["disks"], "hist": []})
+    for i in range(reps * len(UNLOCK_TEMPLATES)):
+        vm = _hist_vm(rng)
+        combo = gen_vmx.COMBOS[(i * 7 + seed) % len(gen_vmx.COMBOS)]
+        seal = gen_vmx.gen_recipe(rng, "quick", combo=combo, npairs=1 + i % 2)
+        for p in seal["pairs"]:
+            p["rounds"] = min(p["rounds"], 60)
+        r = {"fmt": "vmxhist", "mode": "unlock", "vm": vm, "rseed": rng.getrandbits(32), "variant": None, "seal": seal, "nvis": i % 4}
+        st = _hist_state(vm)
+        if i % 3 == 2:                                         # one device of the VM is described by the envelope itself
+            key = next(k for k in (("scsi", 1, 5), ("sata", 2, 9), ("ide", 0, 1), ("scsi", 3, 3)) if k not in st)
+            r["envelope_dev"] = [[list(key), "envelope-%d.vmdk" % i, None]]
+            st[key] = ["disk", "envelope-%d.vmdk" % i]
+        r["ops"] = _hist_plan(rng, st, UNLOCK_TEMPLATES[i % len(UNLOCK_TEMPLATES)])
+        cases.append({"id": f"{tag}vmxhist-u{i}", "recipe": r, "queries": ["disks"], "hist": []})
+    return cases
+
+
+def _dict_text(d):
+    """a text spelling of a dictionary (for the model); None when a value cannot be spelled that simply"""
+    import gen_vmx
+    text = "".join(f'{k} = "{v}"\n' for k, v in d.items())
+    return text if gen_vmx.parse_dictionary(text) == d else None
+
+
 # --------------------------------------------------------------------------- cases
 
 def _render(recipe):
@@ -432,7 +671,7 @@ def generate(seed, tier):
             recipe = {"vm": vmf, "fmt": fmt, "rseed": rng.getrandbits(32), "variant": variant}
             qs = _render(recipe)[3]
             cases.append({"id": f"{fmt}{i}", "recipe": recipe, "queries": ["disks"] + (["dict"] + qs if fmt == "vmx" else []), "hist": gen_history(rng)})
-    return cases
+    return cases + _hist_cases(seed, tier)
 
 
 def _lower_ok(s):
@@ -442,6 +681,14 @@ def _lower_ok(s):
 def build(case):
     r = case["recipe"]
     fmt, vm = r["fmt"], r["vm"]
+    if fmt == "vmxhist":
+        text, steps, lists, dicts, br = build_vmxhist(r)
+        in_scope = all(_lower_ok(l.partition("=")[0]) for l in text.split("\n")) and all(_lower_ok(v) for d in dicts for k, v in d.items() if k.endswith(".devicetype"))
+        br |= {"vmxhist", "vmxhist-" + r["mode"], "disks=%s" % (len(lists[-1]) if len(lists[-1]) < 4 else "4+")}
+        b = Built({}, [canon_list(l) for l in lists], {"branches": sorted(br), "in_scope": in_scope, "compare_model_out_of_scope": False,
+                                                      "nontrivial": any(a != b_ for a, b_ in zip(lists, lists[1:])), "fmt": fmt})
+        b.text, b.queries, b.steps, b.dicts = text, [], steps, dicts
+        return b
     text, truth, tdict, qs = _render(r)
     kinds = {d["kind"] for d in vm["devices"]}
     branches = {fmt, fmt + ("-" + r["variant"] if r.get("variant") else "")}
@@ -485,6 +732,34 @@ def build(case):
 def impl_run(case, built):
     fmt, text = built.info["fmt"], built.text
     answers, errors = [], {}
+    if fmt == "vmxhist":
+        from dissect.hypervisor.descriptor.vmx import VMX
+        try:
+            vmx = VMX.parse(text)
+        except Exception as e:  # noqa
+            return {"answers": ["E"], "errors": {"0": f"{type(e).__name__}: {e}"[:300]}}
+        for i, st in enumerate(built.steps):
+            try:
+                if st[0] == "set":
+                    for k, v in st[1].items():
+                        vmx.attr[k] = v
+                elif st[0] == "update":
+                    vmx.attr.update(st[1])
+                elif st[0] == "del":
+                    for k in st[1]:
+                        del vmx.attr[k]
+                elif st[0] == "replace":
+                    vmx.attr = dict(st[1])
+                elif st[0] == "unlock":
+                    try:
+                        vmx.unlock_with_phrase(st[1])
+                    except ValueError as e:                    # a wrong passphrase is refused; the dictionary stays (C15)
+                        errors["u%d" % i] = f"{type(e).__name__}: {e}"[:200]
+                answers.append(canon_list(vmx.disks()))
+            except Exception as e:  # noqa
+                answers.append("E")
+                errors[str(i)] = f"{type(e).__name__}: {e}"[:300]
+        return {"answers": answers, "errors": errors}
     if fmt == "vmx":
         from dissect.hypervisor.descriptor.vmx import VMX
         try:
@@ -536,6 +811,9 @@ def tree_tokens(e, out):
 
 def model_lines(case, built):
     fmt, text = built.info["fmt"], built.text
+    if fmt == "vmxhist":                                       # the model's disks() of the dictionary of every step
+        texts = [_dict_text(d) for d in built.dicts]
+        return ["cfg.noxml"] if any(t is None for t in texts) else [" ".join(["cfg.vmx", _h(t)]) for t in texts]
     if fmt == "vmx":
         return [" ".join(["cfg.vmx", _h(text)] + [_h(q) for q in built.queries])]
     try:
@@ -555,6 +833,10 @@ def _unhex(t):
 
 def model_parse(case, built, out):
     """the model's disk list is a pure function of the document: its answers to the history are derived from that one list"""
+    if built.info["fmt"] == "vmxhist":
+        if not out or len(out) != len(built.dicts) or not all(l.startswith("ok ") for l in out):
+            return {"answers": None, "wf": None, "raw": [l[:120] for l in (out or [])][:3]}
+        return {"answers": [l.split(" ")[1] for l in out], "wf": built.info["in_scope"]}
     r = _model_parse(case, built, out)
     a = r.get("answers")
     if a and case.get("hist"):
@@ -620,6 +902,12 @@ def shrink(case):
         except Exception:  # noqa
             return False
     r = case["recipe"]
+    if r["fmt"] == "vmxhist":                                 # the shortest failing prefix of the history
+        for k in range(1, len(r["ops"])):
+            c2 = dict(case, recipe=dict(r, ops=r["ops"][:k]), id=case["id"] + f".p{k}")
+            if failing(c2):
+                return c2
+        return case
     for field in ("devices", "unrelated", "controllers"):
         changed, rounds = True, 0
         while changed and rounds < 30:
